@@ -174,6 +174,13 @@ func VX_C17_hs_union() {
 	vxAssert(vxSetHas(r, probe) == want, "hs-union/membership")
 	vxAssert(r.Length() == distinct, "hs-union/length-is-number-of-distinct-elements")
 	vxAssert(vxSetInvariant(r), "hs-union/invariant")
+	// the union is a NEW set: changing it later does not change an operand
+	vxAssert(r != x && r != y, "hs-union/result-is-a-new-set")
+	xp, yp := vxSetHas(x, probe), vxSetHas(y, probe)
+	for i := range r.table {
+		r.table[i] = DeletedHashSetValue // overwrite the result's storage
+	}
+	vxAssert(vxSetHas(x, probe) == xp && vxSetHas(y, probe) == yp, "hs-union/operands-independent-of-later-changes-to-the-result")
 }
 
 // target.copy(source) into a target that already has elements (what Copy is for)
